@@ -29,6 +29,10 @@ class NotReplayable(Exception):
     pass
 
 
+ALTERED = []          # notes about values of the model that had to be changed for serialisation
+OPAQUE_TYPES = {}     # tag of an opaque placeholder field -> its Rust type (filled by tracker.sym_typed)
+
+
 def build():
     env = dict(os.environ, CARGO_TARGET_DIR=os.path.join(CACHE, 'target-replay-step'), CARGO_NET_OFFLINE='true')
     lock = os.path.join(os.environ.get('VERIF_REPO', '/repo'), 'Cargo.lock')
@@ -66,7 +70,9 @@ def _ev_float(m, f):
     else:
         x = V.fp_to_float(m.eval(f.v, model_completion=True))
     if x != x or math.isinf(x):
-        raise NotReplayable('non-finite float in the model (JSON cannot carry it)')
+        # JSON cannot carry NaN / inf: use 0.0 and remember that the replayed state is not exactly the model
+        ALTERED.append('non-finite float replaced by 0.0')
+        x = 0.0
     if f.ty == 'f32':
         import struct
         x = struct.unpack('<f', struct.pack('<f', x))[0]
@@ -142,11 +148,58 @@ def to_json(prog, v, m):
         if len(v.f) == 1:
             return {variant: to_json(prog, v.f[0], m)}
         return {variant: [to_json(prog, x, m) for x in v.f]}
+    if isinstance(v, Opaque) and v.kind == 'field' and v.p in OPAQUE_TYPES:
+        # a field the executed code never inspected (inspecting an opaque value stops the run): any value will do
+        return default_json(prog, OPAQUE_TYPES[v.p])
     raise NotReplayable('value %r' % (v,))
+
+
+def default_json(prog, ty, depth=0):
+    import re
+    src = prog.src
+    ty = ty.strip()
+    if ty in INT_TYPES or ty in FLOAT_TYPES:
+        return 0
+    if ty == 'bool':
+        return False
+    if ty == 'String':
+        return ''
+    if ty == 'ICAO':
+        return [0, 0, 0]
+    if depth > 6:
+        raise NotReplayable('type ' + ty)
+    if re.match(r'^Option<', ty):
+        return None
+    m = re.match(r'^\[(.*);\s*(\d+)\]$', ty)
+    if m:
+        return [default_json(prog, m.group(1), depth + 1) for _ in range(int(m.group(2)))]
+    if re.match(r'^Vec<', ty):
+        return []
+    en = src.enums.get(ty)
+    if en:
+        for name in en:
+            if (ty, name) not in src.vfields and not _tuple_variant(src, ty, name):
+                return name
+        raise NotReplayable('enum %s has no unit variant' % ty)
+    if ty in src.ftypes and src.ftypes[ty]:
+        return {n: default_json(prog, t, depth + 1) for n, t, _a in src.ftypes[ty]}
+    if ty in src.tstructs:
+        ts = src.tstructs[ty]
+        return default_json(prog, ts[0], depth + 1) if len(ts) == 1 else [default_json(prog, t, depth + 1) for t in ts]
+    raise NotReplayable('type ' + ty)
+
+
+def _tuple_variant(src, ty, name):
+    import re
+    for txt in src.files.values():
+        if re.search(r'\benum\s+%s\b' % re.escape(ty), txt) and re.search(r'\b%s\s*\(' % re.escape(name), txt):
+            return True
+    return False
 
 
 def step_json(prog, ctx, m):
     """ctx: dict(op, pre, frame?, recv?, max_range?, T?, icao?, nows?) with mirsym values; m: z3 model"""
+    del ALTERED[:]
     d = {'op': ctx['op'], 'pre': to_json(prog, ctx['pre'], m)}
     if ctx.get('frame') is not None:
         d['frame'] = to_json(prog, ctx['frame'], m)
@@ -160,6 +213,8 @@ def step_json(prog, ctx, m):
         d['icao'] = to_json(prog, ctx['icao'], m)
     if ctx.get('nows'):
         d['model_clock'] = [[_ev_int(m, s), _ev_int(m, n)] for s, n in ctx['nows']]
+    if ALTERED:
+        d['altered'] = sorted(set(ALTERED))
     return d
 
 
@@ -215,12 +270,20 @@ def shift_stamps_for_prune(step):
 
 def judge(v):
     """-> (reproduced: True | False | None (not replayable), note)"""
+    ok, note = _judge(v)
+    if ok is False and (v.get('step') or {}).get('altered'):
+        return None, note + ' (the replayed state differs from the model: %s)' % ', '.join(v['step']['altered'])
+    return ok, note
+
+
+def _judge(v):
     step = v.get('step')
     if step is None:
         return None, v.get('step_error', 'no serialisable step')
     role = v['role'].split(':')[-1] if ':' in v['role'] else v['role']
     role0 = v['role'].split(':')[0]
     step = json.loads(json.dumps(step))
+    step.pop('altered', None)
     ages = None
     if step['op'] == 'prune':
         ages = shift_stamps_for_prune(step)
